@@ -543,6 +543,62 @@ impl Pr<'_> {
     }
 }
 
+/// Type declarations only (structs and enums with the standard derives).
+pub fn print_types(p: &Program) -> String {
+    let mut pr = Pr { p, out: String::new(), ind: 0 };
+    for (i, fields) in p.structs.iter().enumerate() {
+        pr.line("#[derive(Copy, Drop, PartialEq, Serde)]");
+        pr.line(&format!("struct S{i} {{"));
+        for (k, t) in fields.iter().enumerate() {
+            pr.line(&format!("    m{k}: {},", t.name(p)));
+        }
+        pr.line("}");
+    }
+    for (i, vars) in p.enums.iter().enumerate() {
+        pr.line("#[derive(Copy, Drop, PartialEq, Serde)]");
+        pr.line(&format!("enum E{i} {{"));
+        for (k, t) in vars.iter().enumerate() {
+            match t {
+                Some(t) => pr.line(&format!("    V{k}: {},", t.name(p))),
+                None => pr.line(&format!("    V{k},")),
+            }
+        }
+        pr.line("}");
+    }
+    pr.out
+}
+
+/// One expression as Cairo source.
+pub fn print_expr(p: &Program, e: &Expr) -> String {
+    let mut pr = Pr { p, out: String::new(), ind: 1 };
+    pr.expr(e)
+}
+
+/// One function `<prefix>fn f<i>(params) -> ret { body }`.
+pub fn print_func(p: &Program, i: usize, prefix: &str) -> String {
+    let f = &p.funcs[i];
+    let mut pr = Pr { p, out: String::new(), ind: 0 };
+    let params: Vec<String> = f
+        .params
+        .iter()
+        .map(|pa| match pa {
+            Param::Val(n, t) => format!("{n}: {}", t.name(p)),
+            Param::Ref(n, t) => format!("ref {n}: {}", t.name(p)),
+            Param::Span(n, t) => format!("{n}: Span<{}>", t.name(p)),
+        })
+        .collect();
+    pr.line(&format!("{prefix}fn f{i}({}) -> {} {{", params.join(", "), f.ret.name(p)));
+    pr.ind = 1;
+    for s in &f.body.stmts {
+        pr.stmt(s);
+    }
+    let t = pr.expr(&f.body.tail);
+    pr.line(&t);
+    pr.ind = 0;
+    pr.line("}");
+    pr.out
+}
+
 pub fn print_program(p: &Program) -> String {
     let mut pr = Pr { p, out: String::new(), ind: 0 };
     pr.line("use core::dict::Felt252DictTrait;");
